@@ -673,3 +673,28 @@ func init() {
 	reg("sort.Slice", sortWith("pdq"))
 	reg("sort.SliceStable", sortWith("stable"))
 }
+
+// regexp: patterns are compiled natively in the engine and matched on concrete strings only.
+func init() {
+	compile := func(p *Path, fn *ssa.Function, a []Value) Value {
+		pat := p.strArg(a[0])
+		re, err := regexp.Compile(pat)
+		if err != nil {
+			p.throw(StrV{s: "regexp: " + err.Error()}, "regexp.MustCompile")
+		}
+		return PtrV{c: p.newCell(OpaqueV{kind: "regexp", data: re}, nil)}
+	}
+	reg("regexp.MustCompile", compile)
+	reg("regexp.Compile", func(p *Path, fn *ssa.Function, a []Value) Value { return TupleV{compile(p, fn, a), IfaceV{}} })
+	reg("(*regexp.Regexp).MatchString", func(p *Path, fn *ssa.Function, a []Value) Value {
+		re := a[0].(PtrV).load().(OpaqueV).data.(*regexp.Regexp)
+		s, ok := strConcrete(a[1].(StrV))
+		if !ok {
+			p.unsup("regexp match on a symbolic string (pattern %s)", re.String())
+		}
+		return mkBool(re.MatchString(s))
+	})
+	reg("(*regexp.Regexp).String", func(p *Path, fn *ssa.Function, a []Value) Value {
+		return StrV{s: a[0].(PtrV).load().(OpaqueV).data.(*regexp.Regexp).String()}
+	})
+}
